@@ -509,7 +509,7 @@ func init() {
 			c.describe("C11.c", "flow: cluster plans return through addOrderLimitOffset with HAVING in between (see C09.c, C08.b)")
 			ruleC09c(c, "C11.c")
 			ruleC08b(c, "C11.c")
-		}, func(c *Ctx) { ruleC11d(c, "C11.d") }, func(c *Ctx) { ruleC11e(c, "C11.e") }, func(c *Ctx) { ruleC09e(c, "C11.f") }, func(c *Ctx) { ruleC11g(c, "C11.g") }, func(c *Ctx) { ruleLoopCapture(c, "C11.h", "z", "z/planner") }, func(c *Ctx) { ruleC11i(c, "C11.i") }, func(c *Ctx) { ruleC08i(c, "C11.j") }},
+		}, func(c *Ctx) { ruleC11d(c, "C11.d") }, func(c *Ctx) { ruleC11e(c, "C11.e") }, func(c *Ctx) { ruleC09e(c, "C11.f") }, func(c *Ctx) { ruleC11g(c, "C11.g") }, func(c *Ctx) { ruleLoopCapture(c, "C11.h", "z", "z/planner") }, func(c *Ctx) { ruleC11i(c, "C11.i") }, func(c *Ctx) { ruleC08i(c, "C11.j") }, func(c *Ctx) { ruleC11k(c, "C11.k") }},
 	})
 }
 
@@ -732,4 +732,43 @@ func ruleC11i(c *Ctx, rule string) {
 		}
 		c.check(rule, "planClusterNonPushdown: query."+fld+" is reset before the leader group-by", gb[0].Pos(), ok, "query."+fld+" = time.Time{} dominates addGroupBy", "the leader-side group-by of a non-pushdown plan keeps the query's raw "+fld+": with an absolute timestamp off the resolution grid the leader's periods are shifted against the partitions' (and the local plan's) rounded window")
 	}
+}
+
+// ruleC11k: the leader ships exactly one result set per IN-subquery, in order.
+func ruleC11k(c *Ctx, rule string) {
+	c.describe(rule, "dom: the function returned by planner.planSubQueries collects one result per IN-subquery unconditionally — the append that builds the returned [][]interface{} inside the receive loop is guarded by nothing but the loop's own exit test. The list is shipped positionally to the partitions, which use it only when its length equals the number of IN-subqueries; a skipped (e.g. empty) entry makes every partition re-run the subqueries against its own rows")
+	top := c.need(rule, "z/planner.planSubQueries")
+	if top == nil {
+		return
+	}
+	n := 0
+	for _, fn := range withAnon(top) {
+		if fn == top || fn.Signature.Results().Len() != 2 || typeStr(fn.Signature.Results().At(0).Type()) != "[][]interface{}" {
+			continue
+		}
+		for _, call := range calls(fn) {
+			if calleeName(call) != "builtin append" || typeStr(call.Value().Type()) != "[][]interface{}" {
+				continue
+			}
+			l := innermostLoop(fn, call.Block())
+			if l == nil {
+				continue
+			}
+			n++
+			bad := ""
+			for b := range l.body {
+				i := ifOf(b)
+				if i == nil || b == l.header {
+					continue
+				}
+				for k, br := range []bool{true, false} {
+					if edgeDominates(i, br, call.Block()) && l.body[b.Succs[1-k]] && !reach([]*ssa.BasicBlock{b.Succs[1-k]}, blockSet{l.header: true}, nil)[call.Block()] {
+						bad = c.P.Pos(i.Cond.Pos())
+					}
+				}
+			}
+			c.check(rule, "planSubQueries: one shipped result set per IN-subquery", call.Pos(), bad == "", "the append in the collecting loop is unconditional", "the collecting loop skips a subquery's result set under a condition ("+bad+"): the shipped list gets shorter than the number of IN-subqueries (or shifts position), the partitions discard it and evaluate the IN-subqueries against their own rows only — rows whose match lives on another partition disappear from the cluster result")
+		}
+	}
+	c.floor(rule, "appends building the shipped sub-query results", n, 1)
 }
